@@ -94,7 +94,11 @@ class C15(Check):
         gene = worlds.gene_of(wk, "hg19")
         base = tables.apply_deviations(self._base(gene, planted), dv)
         mq_, q_, mc, thr = th
-        quals = ((60, q_ - 1), (mq_ - 1, 60), (0, 0))
+        quals = [(60, q_ - 1), (mq_ - 1, 60), (0, 0)]
+        # a quality that qualifies under one threshold setting and not under another (15 vs thresholds 10 / 20):
+        # below the threshold it is a low-quality edit (metamorphic oracle), above it a qualifying edit (only the
+        # support invariant applies) - both roles occur in one process
+        quals += [(60, 15), (15, 60)]
         cells = [(pos, op) for pos in sorted(base) for op in sorted(base[pos])]
         unplanted = [m for m in sorted(gene.mutations) if m[1] not in base.get(m[0], {})]
         k = 0
@@ -102,9 +106,9 @@ class C15(Check):
             for qi, qq in enumerate(quals):
                 for j in (1, 5, 50):
                     k += 1
-                    if self.tier == "quick" and k % 12 != (self.seed + len(planted[0][1])) % 12:
+                    if self.tier == "quick" and k % 20 != (self.seed + len(planted[0][1])) % 20:
                         continue
-                    if self.tier == "thorough" and k % 3 != (self.seed + len(planted[0][1])) % 3:
+                    if self.tier == "thorough" and k % 5 != (self.seed + len(planted[0][1])) % 5:
                         continue
                     yield (f"+{j} lowq {op}@{pos}", (wk, planted, dv, th, ((pos, op, j, qq),)))
 
@@ -121,7 +125,11 @@ class C15(Check):
         cnlist = [gene.alleles[M].cn_config for M, _ in planted]
         v = []
         mj0, mn0, cov0 = run_pipeline(gene, p, table, (), cnlist)
-        if lowq:
+        qualifying_edit = any(qq[1] >= q_ and qq[0] >= mq_ for _, _, _, qq in lowq)
+        if lowq and qualifying_edit:
+            mj1, mn1, cov1 = run_pipeline(gene, p, table, lowq, cnlist)
+            mj, mn = mj1, mn1
+        elif lowq:
             mj1, mn1, cov1 = run_pipeline(gene, p, table, lowq, cnlist)
             if mj0 != mj1:
                 v.append(("quality/major-changed-by-low-quality-reads", f"{planted} thresholds {th} edit {lowq}: {mj0[:2]} -> {mj1[:2]}"))
